@@ -112,7 +112,8 @@ class Interp:
         self.depth += 1
         if self.depth > self.max_depth:
             self.depth -= 1
-            raise Unknown('call depth exceeded in %s' % fi.fq)
+            # unbounded mutual recursion: Python itself would raise RecursionError here
+            raise Raised('RecursionError', fi.fq)
         try:
             env = self._bind(fi, args, kwargs)
             frame = {'env': env, 'fi': fi, 'owner': owner}
